@@ -18,7 +18,7 @@ MCEndpoints == {
 MCCreds == {"none", "malformed", "unknownKey", "otherAccountKey", "validOtherBytes",
             "validOtherPath", "legacyPeriod", "noAccountHeader", "valid", "secondDevice"}
 
-MCAcls == {"none", "allowA", "allowOther", "denyA", "denyOther", "allowA_denyA"}
+MCAcls == {"none", "allowA", "allowOther", "denyA", "denyOther", "allowA_denyA", "allowOther_denyOther", "allowA_denyOther"}
 
 Case == [acl |-> acl, trusted |-> trusted, revokedBy |-> revokedBy, ep |-> last.ep, cred |-> last.cred, out |-> last.out]
 EmitInv == (EmitCases /\ last.ep[1] \notin {"-", "config", "revoke"}) => PrintT(<<"CASE", ToJson(Case)>>)
